@@ -11,6 +11,7 @@ from props import tcommon
 PROP = "C10"
 K_INJ = [("src/wal/storage.rs", "c10_wal_storage.rs", "verif_c10s")]
 R_INJ = [("src/lib.rs", "replay_damage.rs", "verif_replay_damage")]
+B_INJ = [("src/wal/mod.rs", "replay_bytelog.rs", "verif_replay_bytelog")]
 
 
 def replay_k(values):
@@ -45,9 +46,21 @@ def run(tier, seed, ev):
         for nrec, bad, kind in inst:
             obs.append((f"replay never applies a record at/after damaged record {bad} of {nrec} ({kind})", "replay_damage",
                         (lambda a, b, c: lambda ex: R.ob_replay_damaged(ex, a, b, c))(nrec, bad, kind)))
-        rc_m = mprop.run_m(PROP, tier, seed, ev, ex, obs, R_INJ, "replay_damaged_log")
-        ev.functions = H[1].functions + ["wal::replay::WalReplayer::replay"]
-        ev.bounds = {"K": H[1].bounds, "M": "logs of 1..3 records in every grouping into segments, any one record damaged, snapshot version symbolic"}
+        # the REAL SegmentReader (read_next_entry / next) inside the real replay loop, over a byte-structured log
+        binst = [(2, 0, None), (2, 1, None), (2, None, (1, "header")), (2, None, (1, "payload")), (1, 0, None)]
+        if tier == "thorough":
+            binst += [(3, 0, None), (3, 1, None), (3, 2, None), (3, None, (2, "header")), (3, None, (2, "payload")), (1, None, (0, "payload"))]
+        for nrec, dmg, cut in binst:
+            what = f"record {dmg} altered" if dmg is not None else f"cut in the {cut[1]} of record {cut[0]}"
+            obs.append((f"real reader + replay: {nrec} records, {what}", "reader_replay_damage",
+                        (lambda a, b, c: lambda ex: R.ob_replay_real_reader(ex, a, b, c))(nrec, dmg, cut)))
+        byte = lambda ob: "REAL SegmentReader" in ob.name
+        rc_m = mprop.run_m(PROP, tier, seed, ev, ex, obs, lambda ob: B_INJ if byte(ob) else R_INJ,
+                           lambda ob: "replay_byte_log" if byte(ob) else "replay_damaged_log")
+        ev.functions = H[1].functions + ["wal::replay::WalReplayer::replay", "wal::storage::SegmentReader::{next,read_next_entry} (MIR, +closures)",
+                        "wal::storage::SegmentStorage::open_reader"]
+        ev.bounds = {"K": H[1].bounds, "M": "logs of 1..3 records in every grouping into segments, any one record damaged, snapshot version symbolic; "
+                          "byte-structured variant: record length fields symbolic in 1..2^32-1, header fields/hash/payload abstract per record"}
         ev.stubs = sorted(ex.models.used) + ["K: File::read copies k>=1 available bytes; calculate_blob_hash -> injective toy hash (<=31 bytes)"]
         ev.assumptions = ["collision resistance of BLAKE3 (explicit)", "'cut short' = loss of a tail of the log; a hole in the middle of a "
                           "multi-segment log is not what the property states", "decoder totality (no panic on arbitrary op bytes) is C16"]
